@@ -95,6 +95,18 @@ def prove_property(pid, tier="quick", log=print):
                 if r == "refuted":
                     rec["model"] = dict(list((ob.model or {}).items())[:60])
                     rec["trace"] = [f"{a}={b}" for a, b in ob.meta.get("trace", [])][-25:]
+                    # project the counter-model onto the function's inputs (replayed on the real code by ./check)
+                    try:
+                        zm = getattr(ob, "z3model", None)
+                        if zm is not None and hasattr(c, "to_case") and ob.meta.get("inputs"):
+                            from .verify import concretize
+                            vals = concretize(zm, ob.meta["inputs"])
+                            if vals is not None:
+                                case = c.to_case(vals, ob.meta.get("variant"))
+                                if case is not None:
+                                    rec["model_case"] = case
+                    except Exception as e:       # a model that cannot be projected is not an error of the check
+                        rec["model_case_error"] = f"{type(e).__name__}: {e}"
                 if r == "unknown":
                     rec["reason"] = getattr(ob, "reason", "")
                 report["obligations"].append(rec)
